@@ -1,4 +1,5 @@
 import ErgoVerif.Model.Event
+import ErgoVerif.Generated.Event
 /-!
 # C18 — events: every subscriber sees every publication once, in order
 
@@ -6,7 +7,10 @@ import ErgoVerif.Model.Event
 maintained only by subscribe / unsubscribe calls.
 -/
 namespace ErgoVerif.Props.C18
-open ErgoVerif.Event
+open ErgoVerif ErgoVerif.Event
+
+/-- the code as it is: does a subscriber's termination update the counter (regenerated) -/
+abbrev dc : Bool := Gen.Event.terminationUpdatesCounter
 
 /-- invariants for every history: relations are distinct, the replay buffer is the tail of the publications -/
 def Inv (e : Ev) : Prop :=
@@ -37,7 +41,7 @@ theorem pushLast_spec (cap : Nat) (last pub : List Nat) (m : Nat)
       refine ⟨by simp; omega, ⟨pre, by rw [hpre]; simp⟩, ?_⟩
       intro _; rw [h3 hl]
 
-theorem step_inv (e : Ev) (o : Op) (h : Inv e) : Inv (step e o).1 := by
+theorem step_inv (b : Bool) (e : Ev) (o : Op) (h : Inv e) : Inv (step b e o).1 := by
   obtain ⟨hnd, hcap, hpre, hsmall⟩ := h
   cases o with
   | register tok notify cap =>
@@ -69,17 +73,17 @@ theorem step_inv (e : Ev) (o : Op) (h : Inv e) : Inv (step e o).1 := by
     · split
       · exact ⟨hnd, hcap, hpre, hsmall⟩
       · exact ⟨hnd.erase _, hcap, hpre, hsmall⟩
-  | consumerDies c => exact ⟨hnd.filter _, hcap, hpre, hsmall⟩
+  | consumerDies c => simp only [step]; split <;> exact ⟨hnd.filter _, hcap, hpre, hsmall⟩
   | unregister =>
     simp only [step]; split
     · exact ⟨hnd, hcap, hpre, hsmall⟩
     · simp [Inv, Ev.init]
 
-theorem run_inv : ∀ (ops : List Op) (e : Ev), Inv e → Inv (runOps e ops) := by
+theorem run_inv (b : Bool) : ∀ (ops : List Op) (e : Ev), Inv e → Inv (runOps b e ops) := by
   intro ops
   induction ops with
   | nil => intro e h; exact h
-  | cons o os ih => intro e h; exact ih _ (step_inv e o h)
+  | cons o os ih => intro e h; exact ih _ (step_inv b e o h)
 
 /-- number of subscriptions process c holds (0, 1 or 2: link and monitor are separate relations) -/
 def subsOf (e : Ev) (c : Nat) : Nat := (e.subs.filter (fun s => s.1 = c)).length
@@ -87,11 +91,11 @@ def subsOf (e : Ev) (c : Nat) : Nat := (e.subs.filter (fun s => s.1 = c)).length
 /-- **Fan-out.** In any reachable state a publication with the right token is delivered to a process once per
 subscription it holds, to nobody else, and is recorded; a wrong token is refused and changes nothing. -/
 theorem C18_publish (ops : List Op) (tok m c : Nat) :
-    let e := runOps Ev.init ops
+    let e := runOps dc Ev.init ops
     (e.registered = true → tok = e.token →
-        ∃ to, (step e (.publish tok m)).2 = .delivered to ∧ to.count c = subsOf e c ∧
-          (step e (.publish tok m)).1.published = e.published ++ [m]) ∧
-    (e.registered = true → tok ≠ e.token → step e (.publish tok m) = (e, .errOwner)) := by
+        ∃ to, (step dc e (.publish tok m)).2 = .delivered to ∧ to.count c = subsOf e c ∧
+          (step dc e (.publish tok m)).1.published = e.published ++ [m]) ∧
+    (e.registered = true → tok ≠ e.token → step dc e (.publish tok m) = (e, .errOwner)) := by
   intro e
   constructor
   · intro hr ht
@@ -105,9 +109,9 @@ theorem C18_publish (ops : List Op) (tok m c : Nat) :
 /-- the full "exactly once" statement: a subscribed process receives each publication exactly once -/
 def C18_exactly_once_full : Prop :=
   ∀ (ops : List Op) (tok m c : Nat),
-    let e := runOps Ev.init ops
+    let e := runOps dc Ev.init ops
     e.registered = true → tok = e.token → subsOf e c ≥ 1 →
-    ∀ to, (step e (.publish tok m)).2 = .delivered to → to.count c = 1
+    ∀ to, (step dc e (.publish tok m)).2 = .delivered to → to.count c = 1
 
 /-- it is false for the code as it is: a process that subscribed by link *and* by monitor holds two relations
 and receives every publication twice (defect D20) -/
@@ -118,9 +122,9 @@ theorem C18_exactly_once_counterexample : ¬ C18_exactly_once_full := by
 
 /-- **Exactly once, for processes holding one subscription** (the strongest statement the code supports) -/
 theorem C18_exactly_once_partial (ops : List Op) (tok m c : Nat) :
-    let e := runOps Ev.init ops
+    let e := runOps dc Ev.init ops
     e.registered = true → tok = e.token → subsOf e c = 1 →
-    ∀ to, (step e (.publish tok m)).2 = .delivered to → to.count c = 1 := by
+    ∀ to, (step dc e (.publish tok m)).2 = .delivered to → to.count c = 1 := by
   intro e hr ht hs to hto
   obtain ⟨to', h1, h2, _⟩ := (C18_publish ops tok m c).1 hr ht
   rw [h1] at hto
@@ -129,9 +133,9 @@ theorem C18_exactly_once_partial (ops : List Op) (tok m c : Nat) :
 
 /-- and a process without a subscription (never subscribed, unsubscribed, or dead) receives nothing -/
 theorem C18_no_subscription (ops : List Op) (tok m c : Nat) :
-    let e := runOps Ev.init ops
+    let e := runOps dc Ev.init ops
     e.registered = true → tok = e.token → subsOf e c = 0 →
-    ∀ to, (step e (.publish tok m)).2 = .delivered to → c ∉ to := by
+    ∀ to, (step dc e (.publish tok m)).2 = .delivered to → c ∉ to := by
   intro e hr ht hs to hto
   obtain ⟨to', h1, h2, _⟩ := (C18_publish ops tok m c).1 hr ht
   rw [h1] at hto
@@ -143,11 +147,11 @@ theorem C18_no_subscription (ops : List Op) (tok m c : Nat) :
 the replay buffer is always a suffix of the publication sequence, of length at most N, and the whole sequence
 while fewer than N were published. -/
 theorem C18_snapshot (ops : List Op) (c : Nat) (mon : Bool) (snap : List Nat) (note : Option Note) :
-    let e := runOps Ev.init ops
-    (step e (.sub c mon)).2 = .subscribed snap note →
+    let e := runOps dc Ev.init ops
+    (step dc e (.sub c mon)).2 = .subscribed snap note →
     snap.length ≤ e.cap ∧ (∃ pre, e.published = pre ++ snap) ∧ (snap.length < e.cap → snap = e.published) := by
   intro e hs
-  have hi := run_inv ops Ev.init inv_init
+  have hi := run_inv dc ops Ev.init inv_init
   simp only [step] at hs
   split at hs
   · cases hs
@@ -159,13 +163,13 @@ theorem C18_snapshot (ops : List Op) (c : Nat) (mon : Bool) (snap : List Nat) (n
 
 /-- **Unregistration / owner death**: every relation on the event gets exactly one notification of its kind. -/
 theorem C18_unregister (ops : List Op) (c : Nat) :
-    let e := runOps Ev.init ops
+    let e := runOps dc Ev.init ops
     e.registered = true →
-    ∃ ex dn, (step e .unregister).2 = .gone ex dn ∧
+    ∃ ex dn, (step dc e .unregister).2 = .gone ex dn ∧
       ex.count c = (if (c, false) ∈ e.subs then 1 else 0) ∧ dn.count c = (if (c, true) ∈ e.subs then 1 else 0) ∧
-      (step e .unregister).1.subs = [] := by
+      (step dc e .unregister).1.subs = [] := by
   intro e hr
-  have hnd : e.subs.Nodup := (run_inv ops Ev.init inv_init).1
+  have hnd : e.subs.Nodup := (run_inv dc ops Ev.init inv_init).1
   have key : ∀ (b : Bool), ((e.subs.filter (fun s => s.2 == b)).map (·.1)).count c = if (c, b) ∈ e.subs then 1 else 0 := by
     intro b
     rw [List.count_eq_countP, List.countP_map, List.countP_filter, List.countP_eq_length_filter]
@@ -180,34 +184,36 @@ theorem C18_unregister (ops : List Op) (c : Nat) :
   · rw [e1]; exact key false
   · rw [e2]; exact key true
 
-/-- the full statement about producer notifications: `start` exactly when the first live subscription arrives,
-`stop` exactly when the last one goes -/
-def C18_notify_full : Prop :=
+/-- the full statement about producer notifications: `start` exactly when the first live subscription arrives -/
+def C18_notify_full (b : Bool) : Prop :=
   ∀ (ops : List Op) (c : Nat) (mon : Bool) (snap : List Nat) (note : Option Note),
-    let e := runOps Ev.init ops
-    e.notify = true → (step e (.sub c mon)).2 = .subscribed snap note → (note = some .start ↔ e.live = 0)
+    let e := runOps b Ev.init ops
+    e.notify = true → (step b e (.sub c mon)).2 = .subscribed snap note → (note = some .start ↔ e.live = 0)
 
-/-- false for the code as it is: the counter is not decremented when a subscriber terminates, so the next first
-subscriber produces no `start` (defect D21) -/
-theorem C18_notify_counterexample : ¬ C18_notify_full := by
+/-- The code before the repair of D21 (the counter is not decremented when a subscriber terminates): the next first
+subscriber produces no `start`. Kept as a regression statement. -/
+theorem C18_D21_before_fix : ¬ C18_notify_full false := by
   intro h
   have := h [.register 7 true 0, .sub 1 false, .consumerDies 1] 2 false [] none rfl rfl
   simp [Ev.live, runOps, step, Ev.init] at this
 
-/-- **Notifications, when no subscriber terminates while subscribed**: the counter equals the number of live
-subscriptions, so `start` is sent exactly at 0→1 and `stop` exactly at 1→0. -/
-theorem C18_notify_partial (ops : List Op) (hno : ∀ o ∈ ops, ∀ c, o ≠ Op.consumerDies c) :
-    (runOps Ev.init ops).counter = (runOps Ev.init ops).live := by
-  suffices H : ∀ (ops : List Op) (e : Ev), (∀ o ∈ ops, ∀ c, o ≠ Op.consumerDies c) → e.subs.Nodup →
-      e.counter = e.live → (runOps e ops).counter = (runOps e ops).live from
-    H ops Ev.init hno (by simp [Ev.init]) (by simp [Ev.init, Ev.live])
+theorem length_filter_split {α : Type} (p : α → Bool) (l : List α) :
+    l.length = (l.filter p).length + (l.filter (fun x => !p x)).length := by
+  induction l with
+  | nil => simp
+  | cons a r ih => cases hp : p a <;> simp [List.filter, hp] <;> omega
+
+/-- the counter is the number of live subscriptions, for every history — subscriber deaths included when the
+termination path updates it -/
+theorem counter_eq_live (b : Bool) : ∀ (ops : List Op) (e : Ev), (b = false → ∀ o ∈ ops, ∀ c, o ≠ Op.consumerDies c) →
+    e.subs.Nodup → e.counter = e.live → (runOps b e ops).counter = (runOps b e ops).live := by
   intro ops
   induction ops with
   | nil => intro e _ _ h; exact h
   | cons o os ih =>
     intro e hno hnd h
-    have hno' : ∀ o' ∈ os, ∀ c, o' ≠ Op.consumerDies c := fun o' ho' => hno o' (by simp [ho'])
-    have hnd' : (step e o).1.subs.Nodup := by
+    have hno' : b = false → ∀ o' ∈ os, ∀ c, o' ≠ Op.consumerDies c := fun hb o' ho' => hno hb o' (by simp [ho'])
+    have hnd' : (step b e o).1.subs.Nodup := by
       cases o with
       | register tok n c => simp only [step]; split <;> simp_all [Ev.init]
       | publish tok m => simp only [step]; split <;> (try split) <;> simp_all
@@ -219,9 +225,9 @@ theorem C18_notify_partial (ops : List Op) (hno : ∀ o ∈ ops, ∀ c, o ≠ Op
           · rename_i _ hni
             rw [List.nodup_append]
             refine ⟨hnd, by simp, ?_⟩
-            intro a ha b hb; simp at hb; subst hb; intro heq; subst heq; exact hni ha
+            intro a ha b' hb; simp at hb; subst hb; intro heq; subst heq; exact hni ha
       | unsub c mon => simp only [step]; split <;> (try split) <;> first | exact hnd | exact hnd.erase _
-      | consumerDies c => exact hnd.filter _
+      | consumerDies c => simp only [step]; split <;> exact hnd.filter _
       | unregister => simp only [step]; split <;> simp_all [Ev.init]
     apply ih _ hno' hnd'
     cases o with
@@ -244,12 +250,54 @@ theorem C18_notify_partial (ops : List Op) (hno : ∀ o ∈ ops, ∀ c, o ≠ Op
           rw [List.length_erase_of_mem hin']
           have : e.subs.length ≥ 1 := List.length_pos_of_mem hin'
           omega
-    | consumerDies c => exact absurd rfl (hno _ (by simp) c)
+    | consumerDies c =>
+      simp only [step]
+      split
+      · simp only [Ev.live] at h ⊢
+        have hsplit := length_filter_split (fun s : Nat × Bool => decide (s.1 = c)) e.subs
+        have e2 : (e.subs.filter (fun s => !decide (s.1 = c))) = e.subs.filter (fun s => decide (s.1 ≠ c)) := by
+          apply List.filter_congr; intro x _; simp
+        rw [e2] at hsplit
+        omega
+      · rename_i hb
+        have hb' : b = false := by cases b <;> simp_all
+        exact absurd rfl (hno hb' _ (by simp) c)
     | unregister => simp only [step]; split <;> simp_all [Ev.init, Ev.live]
+
+/-- **Producer notifications, for the code as it is**: `start` is sent exactly when a subscription arrives while no
+subscription is live — after any history, subscriber deaths included. -/
+theorem C18_notify : C18_notify_full dc := by
+  have hdc : dc = true := by decide
+  rw [hdc]
+  intro ops c mon snap note e hn hs
+  have hcnt : e.counter = e.live :=
+    counter_eq_live true ops Ev.init (by intro h; cases h) (by simp [Ev.init]) (by simp [Ev.init, Ev.live])
+  simp only [step] at hs
+  split at hs
+  · cases hs
+  · split at hs
+    · cases hs
+    · simp at hs
+      obtain ⟨_, rfl⟩ := hs
+      simp only [hn, Bool.true_and]
+      constructor
+      · intro h
+        split at h
+        · rename_i hc; simp at hc; simp only [Ev.live] at hcnt ⊢; omega
+        · cases h
+      · intro h
+        have hc0 : e.counter = 0 := by simp only [Ev.live] at hcnt h; omega
+        simp [hc0]
+
+/-- and `stop` when the last live subscription goes, by unsubscribing or by the subscriber's death -/
+theorem C18_counter (ops : List Op) : (runOps dc Ev.init ops).counter = (runOps dc Ev.init ops).live := by
+  have hdc : dc = true := by decide
+  rw [hdc]
+  exact counter_eq_live true ops Ev.init (by intro h; cases h) (by simp [Ev.init]) (by simp [Ev.init, Ev.live])
 
 /-- non-vacuity: a history with two subscribers, a buffer of 2 and four publications -/
 example :
-    let e := runOps Ev.init [.register 7 true 2, .sub 1 false, .publish 7 10, .publish 7 11, .publish 7 12, .sub 2 true]
+    let e := runOps true Ev.init [.register 7 true 2, .sub 1 false, .publish 7 10, .publish 7 11, .publish 7 12, .sub 2 true]
     e.last = [11, 12] ∧ e.published = [10, 11, 12] ∧ e.counter = 2 := by decide
 
 end ErgoVerif.Props.C18
